@@ -625,8 +625,9 @@ func runB(cs *fw.Case, idx int, directed bool) {
 	if judge(cs, pb, cfg) {
 		cs.Nontrivial(pb.routine, pb.opts, e.name, p.order, p.mode, fmt.Sprint(pb.in[0].v), p.varOf)
 		cs.Cover(fmt.Sprintf("set:b-shape:%s:n=%d", ent.name, n))
-		if cs.Index < 40 {
-			cs.Sample(map[string]any{"routine": ent.name, "type": e.name, "n": n, "order": order, "activation": p.mode, "variables": p.n, "class": pb.class})
+		if n >= 3 && cs.Index < 400 {
+			cs.Sample(map[string]any{"routine": ent.name, "type": e.name, "n": n, "order": order, "activation": p.mode, "variables": p.n, "class": pb.class,
+				"first_input": fmtVec(pb.in[0].v), "variable_of_entry": p.varOf, "directions_judged": len(p.dirs), "insitu": cfg.reuse})
 		}
 	}
 }
